@@ -29,11 +29,17 @@ pub struct OpSpec {
     pub shadow_elements: bool,
     /// header part names that sort BEFORE the body part name (`audit0` < `parameters`)
     pub early_header_names: bool,
+    /// the header parts live in a message of their own (`<Op>Headers`, `<Op>RespHeaders`), as many
+    /// real WSDLs do: soap:header message= names another message than the operation's input/output
+    pub separate_header_message: bool,
+    /// (with `separate_header_message`) the header part carries the SAME name as the body part,
+    /// each in its own message
+    pub header_part_named_like_body_part: bool,
 }
 
 impl OpSpec {
     pub fn simple(name: &str) -> OpSpec {
-        OpSpec { name: name.into(), output: true, in_headers: 0, out_headers: 0, explicit_parts: false, action: true, part_named_as_element: false, imported_ns: false, headers_without_parts: false, mixed_header_ns: false, overlapping_part_names: false, shadow_elements: false, early_header_names: false }
+        OpSpec { name: name.into(), output: true, in_headers: 0, out_headers: 0, explicit_parts: false, action: true, part_named_as_element: false, imported_ns: false, headers_without_parts: false, mixed_header_ns: false, overlapping_part_names: false, shadow_elements: false, early_header_names: false, separate_header_message: false, header_part_named_like_body_part: false }
     }
     pub fn label(&self) -> String {
         format!(
@@ -86,6 +92,8 @@ fn add_op(s: &mut SchemaSet, o: &OpSpec) {
     let pname = |el: &str| if o.part_named_as_element { el.to_string() } else if o.overlapping_part_names { "payload".to_string() } else { "parameters".to_string() };
     let mut in_parts = vec![Part { name: pname(&req_el), element: QName::new(&ens, &req_el) }];
     let mut in_h = vec![];
+    let mut in_header_parts: Vec<Part> = vec![];
+    let mut out_header_parts: Vec<Part> = vec![];
     let mut other_ns_elems: Vec<Comp> = vec![];
     for i in 0..o.in_headers {
         let hn = format!("{name}Hdr{i}");
@@ -96,9 +104,14 @@ fn add_op(s: &mut SchemaSet, o: &OpSpec) {
         } else {
             new_elems.push(anon_element(&hn, vec![el("Token", TypeRef::b("string"))]));
         }
-        let pn = if o.part_named_as_element { hn.clone() } else if o.overlapping_part_names { format!("payloadHeader{i}") } else if o.early_header_names { format!("audit{i}") } else { format!("hdr{i}") };
-        in_parts.push(Part { name: pn.clone(), element: QName::new(&hns, &hn) });
-        in_h.push((format!("{name}In"), pn));
+        let pn = if o.header_part_named_like_body_part { pname(&req_el) } else if o.part_named_as_element { hn.clone() } else if o.overlapping_part_names { format!("payloadHeader{i}") } else if o.early_header_names { format!("audit{i}") } else { format!("hdr{i}") };
+        if o.separate_header_message {
+            in_header_parts.push(Part { name: pn.clone(), element: QName::new(&hns, &hn) });
+            in_h.push((format!("{name}Headers"), pn));
+        } else {
+            in_parts.push(Part { name: pn.clone(), element: QName::new(&hns, &hn) });
+            in_h.push((format!("{name}In"), pn));
+        }
     }
     let mut out = None;
     let mut out_msg = None;
@@ -110,9 +123,14 @@ fn add_op(s: &mut SchemaSet, o: &OpSpec) {
         for i in 0..o.out_headers {
             let hn = format!("{name}RespHdr{i}");
             new_elems.push(anon_element(&hn, vec![el("Info", TypeRef::b("string"))]));
-            let pn = if o.part_named_as_element { hn.clone() } else if o.overlapping_part_names { format!("payloadHeader{i}") } else if o.early_header_names { format!("audit{i}") } else { format!("rhdr{i}") };
-            out_parts_v.push(Part { name: pn.clone(), element: QName::new(&ens, &hn) });
-            out_h.push((format!("{name}Out"), pn));
+            let pn = if o.header_part_named_like_body_part { pname(&resp_el) } else if o.part_named_as_element { hn.clone() } else if o.overlapping_part_names { format!("payloadHeader{i}") } else if o.early_header_names { format!("audit{i}") } else { format!("rhdr{i}") };
+            if o.separate_header_message {
+                out_header_parts.push(Part { name: pn.clone(), element: QName::new(&ens, &hn) });
+                out_h.push((format!("{name}RespHeaders"), pn));
+            } else {
+                out_parts_v.push(Part { name: pn.clone(), element: QName::new(&ens, &hn) });
+                out_h.push((format!("{name}Out"), pn));
+            }
         }
         out_msg = Some(format!("{name}Out"));
         out = Some(BIo { headers: out_h, parts: if o.explicit_parts || (o.out_headers > 0 && !o.headers_without_parts) { Some(pname(&resp_el)) } else { None } });
@@ -142,6 +160,12 @@ fn add_op(s: &mut SchemaSet, o: &OpSpec) {
     w.messages.push(Message { name: format!("{name}In"), parts: in_parts });
     if o.output {
         w.messages.push(Message { name: format!("{name}Out"), parts: out_parts_v });
+    }
+    if !in_header_parts.is_empty() {
+        w.messages.push(Message { name: format!("{name}Headers"), parts: in_header_parts });
+    }
+    if !out_header_parts.is_empty() {
+        w.messages.push(Message { name: format!("{name}RespHeaders"), parts: out_header_parts });
     }
     w.pt_ops.push(PtOp { name: name.clone(), input: format!("{name}In"), output: out_msg });
     w.b_ops.push(BOp {
@@ -199,6 +223,23 @@ pub fn wsdl_states(depth2: bool) -> Vec<State> {
         o.headers_without_parts = true;
         o.early_header_names = true;
     })));
+    prods.push(("headers-in-a-message-of-their-own".into(), Box::new(|o: &mut OpSpec| {
+        o.in_headers = 2;
+        o.out_headers = 1;
+        o.separate_header_message = true;
+        o.headers_without_parts = true;
+    })));
+    prods.push(("header-in-a-message-of-its-own-part-named-like-the-body-part".into(), Box::new(|o: &mut OpSpec| {
+        o.in_headers = 1;
+        o.out_headers = 1;
+        o.separate_header_message = true;
+        o.header_part_named_like_body_part = true;
+        o.headers_without_parts = true;
+    })));
+    prods.push(("headers-in-a-message-of-their-own-parts-explicit".into(), Box::new(|o: &mut OpSpec| {
+        o.in_headers = 1;
+        o.separate_header_message = true;
+    })));
     prods.push(("output-headers-bound-body-parts-absent".into(), Box::new(|o: &mut OpSpec| {
         o.out_headers = 2;
         o.headers_without_parts = true;
@@ -241,6 +282,23 @@ pub fn wsdl_states(depth2: bool) -> Vec<State> {
         specs.push((l.into(), vec![base.clone()], svc.into(), a.into()));
     }
     let mut out: Vec<State> = specs.iter().map(|(l, ops, s, a)| State { label: format!("wsdl {l}"), depth: if l == "seed" { 0 } else { 1 }, set: wsdl_with(ops, s, a) }).collect();
+    // two operations sharing ONE input message; an operation whose output message IS its input message
+    {
+        let mut set = wsdl_with(&[base.clone(), OpSpec::simple("PutThing")], svc, addr);
+        {
+            let w = set.wsdl.as_mut().unwrap();
+            let shared = w.pt_ops[0].input.clone();
+            w.pt_ops[1].input = shared;
+        }
+        out.push(State { label: "wsdl two-operations-share-one-input-message".into(), depth: 1, set });
+        let mut set = wsdl_with(&[base.clone()], svc, addr);
+        {
+            let w = set.wsdl.as_mut().unwrap();
+            let same = w.pt_ops[0].input.clone();
+            w.pt_ops[0].output = Some(same);
+        }
+        out.push(State { label: "wsdl output-message-is-the-input-message".into(), depth: 1, set });
+    }
     // soapAction forms: another scheme than the address, an opaque URN
     for (l, a) in [("https", "https://secure.zv.example/act/GetThing"), ("urn", "urn:zv:act:GetThing")] {
         let mut set = wsdl_with(&[OpSpec { in_headers: 1, ..base.clone() }, OpSpec { output: false, in_headers: 1, ..OpSpec::simple("DropThing") }], svc, addr);
